@@ -553,6 +553,10 @@ enum Entry {
     Compressed { stm: u32, idx: usize },
 }
 
+/// Write /Index pairs with count 0 into cross-reference streams (switched on by the C02 check only,
+/// so that the documents of the other checks keep their bytes).
+pub static EMPTY_INDEX_PAIRS: std::sync::atomic::AtomicBool = std::sync::atomic::AtomicBool::new(false);
+
 fn runs(nums: &[u32], cuts: &[u32]) -> Vec<(u32, u32)> {
     // consecutive runs of object numbers, additionally split at every number in `cuts`
     let mut out: Vec<(u32, u32)> = vec![];
@@ -716,7 +720,15 @@ pub fn write_doc(spec: &DocSpec) -> Written {
             XrefStyle::Stream { num, w, cuts, filter, predictor } => {
                 entries.insert(*num, Entry::InUse { off: xref_off, gen: 0 });
                 let nums: Vec<u32> = entries.keys().cloned().collect();
-                let rs = runs(&nums, cuts);
+                // now and then (by the stream's own number: no random draw) an /Index pair with count 0
+                // in front of the first run, between the runs, or in front of the last one
+                let mut rs = runs(&nums, cuts);
+                match if EMPTY_INDEX_PAIRS.load(std::sync::atomic::Ordering::Relaxed) { num % 4 } else { 0 } {
+                    1 => rs.insert(0, (rs[0].0, 0)),
+                    2 => rs.insert(rs.len() - 1, (rs[rs.len() - 1].0, 0)),
+                    3 => rs.insert(1, (rs[0].0 + rs[0].1, 0)),
+                    _ => {}
+                }
                 let mut data = vec![];
                 for n in &nums {
                     let (t, a, b): (u64, u64, u64) = match entries[n] {
